@@ -68,7 +68,7 @@ def check(ctx, ser, ia, ib, a_call, b_call):
     alone_a = _outcome(lambda: _run_a(s, _values_a(Gate())[ia], a_call))
     alone_b = _outcome(lambda: _run_b(s, vb, b_call))
     if alone_a[0] != "ok":
-        return          # this serializer does not take the value at that nesting (marshal: nested objects) - nothing to interleave
+        return True     # this serializer does not take the value at that nesting (marshal: nested objects) - nothing to interleave
     inside, go = threading.Event(), threading.Event()
     box = {}
 
